@@ -836,6 +836,9 @@ pub fn directed() -> Vec<Request> {
                     format!("{h1} struct X<T>({h2} T);"),
                     format!("enum X<T> {{ {h1} A({h2} T), {b_marker}B }}"),
                 ];
+                // the two helpers on SIBLING fields (tuple and named)
+                items.push(format!("struct X<T>({h1} T, {h2} u8);"));
+                items.push(format!("enum X<T> {{ A {{ {h1} a: T, {h2} b: u8, c: T }}, {b_marker}B }}"));
                 if f != "cmp" {
                     items.push(format!("struct X<T>({h1} {h2} T, u8);"));
                     items.push(format!("{h1} enum X<T> {{ A {{ {h2} a: T, b: u8 }}, {b_marker}B }}"));
@@ -1287,6 +1290,36 @@ pub fn directed() -> Vec<Request> {
             out.push(Request { mode: Mode::Attr, attr, item: "struct X<'a, T, U, const N: usize>(T, &'a U, [u8; N]);".into() });
         }
         out.push(Request { mode: Mode::Derive, attr: String::new(), item: format!("#[derive_ex(PartialEq, Hash)] enum X<'a, T, U, const N: usize> {{ A(#[eq(bound({ty}))] T), B {{ #[hash(bound({ty}: Hash))] u: &'a U }} }}") });
+    }
+    // one identifier, two spellings (`T` / `r#T`) between declaration and use
+    for (decl, used) in [("T", "r#T"), ("r#T", "T"), ("r#T", "r#T")] {
+        for item in [
+            format!("struct X<{decl}>({used}, Vec<{used}>);"),
+            format!("struct X<{decl}: Clone> {{ a: {used}, b: Option<{used}> }} "),
+            format!("enum X<{decl}> {{ A({used}), #[default] B {{ b: [{used}; 2] }} }}"),
+            format!("struct X<const {decl}: usize>([u8; {used}], [u8; {{ {used} + 1 }}]);"),
+            format!("struct X<{decl}>(#[ord(bound({used}))] {used}) where {used}: Copy;"),
+            format!("struct X<{decl}> {{ {decl}: {used}, #[default({used}::new())] r#b: u8 }}"),
+        ] {
+            out.push(Request { mode: Mode::Attr, attr: "Clone, Debug, Default, Ord, PartialOrd, Eq, PartialEq, Hash, Add, Neg".into(), item: item.clone() });
+            out.push(Request { mode: Mode::Derive, attr: String::new(), item: format!("#[derive_ex(Clone, Default, PartialEq, Hash, Sub)] {item}") });
+        }
+        out.push(Request { mode: Mode::Attr, attr: "Add, AddAssign".into(), item: format!("impl<{decl}> Add<{used}> for X<{used}> {{ type Output = {used}; }}") });
+        out.push(Request { mode: Mode::Attr, attr: format!("Clone(bound({used})), Default(bound({decl}: Default))"), item: format!("struct X<{decl}, U>({used}, U);") });
+    }
+    // impl bodies: with / without a literal `type Output`, with macro items, duplicates, generic
+    // or bounded associated types - under every combination of the binary and the assign form
+    for body in [
+        "", "m!();", "output_is!(X); fn add(self, rhs: X) -> X { self }", "type Output = X;", "type Output = X; m!();",
+        "m! { type Output = X; }", "type Out = X;", "const C: u8 = 0;", "fn add(self, rhs: X) -> X { self }", "type Output = m!();",
+        "type Output = X; type Output = Y;", "type Output<T> = X;", "type Output = X where Self: Sized;", "type Output: Copy = X;",
+        "type Output = Self; fn add(self, rhs: Self) -> Self { self } fn add_assign(&mut self, rhs: Self) {}", "#[cfg(x)] type Output = X; #[cfg(not(x))] type Output = Y;",
+    ] {
+        for head in ["impl Add for X", "impl Add<&X> for &X", "impl<T> Add<T> for X<T>", "impl AddAssign for X", "impl AddAssign<&X> for X", "impl Neg for X"] {
+            for attr in ["Add", "AddAssign", "Add, AddAssign", "AddAssign, Add", "Add, dump", "Add(dump), AddAssign", "", "Neg", "Sub, SubAssign"] {
+                out.push(Request { mode: Mode::Attr, attr: attr.into(), item: format!("{head} {{ {body} }}") });
+            }
+        }
     }
     // normalise to the printed token form and drop what is not a valid request
     let mut res = Vec::new();
